@@ -11,7 +11,7 @@ def fW : FPc → Nat
   | .opening => 10 | .cb _ => 17
 
 def cW : CPc → Nat
-  | .ret => 0 | .close2 => 1 | .sel => 2 | .check => 3 | .got => 4
+  | .ret => 0 | .join => 1 | .close2 => 2 | .sel => 3 | .check => 4 | .got => 5
 
 def mu (cfg : Cfg) (s : St) : Nat :=
   20 * (cfg.n - s.cursor) + 20 * s.errBudget + fW s.f + 7 * s.ch.length + (if s.fin.isSome then 3 else 0) +
@@ -77,9 +77,13 @@ theorem progress {cfg : Cfg} {s : St} (hsz : 2 ≤ cfg.size) (hb : Basic cfg s) 
   | .got => exact ⟨.cNext, rfl, by simp [step, hcs]⟩
   | .close2 => exact ⟨.cClose2, rfl, by simp [step, hcs]⟩
   | .ret =>
-    have ht : s.term1 = true := hb.ret_term.mp hcs
+    have hd := hb.ret_done hcs
+    simp [final, hcs, hd] at hnf
+  | .join =>
+    -- the close sequence waits for the filler: its ctx is cancelled, so the filler moves until it is done
+    have ht : s.term1 = true := hb.ret_term.mp (Or.inl hcs)
     rcases progress_filler hsz hb (Or.inl (by simp [St.ctx1, ht])) with h | h
-    · simp [final, hcs, h] at hnf
+    · exact ⟨.cJoin, rfl, by simp [step, hcs, h]⟩
     · exact h
   | .sel =>
     by_cases hctx : s.ctx0 = true
